@@ -252,7 +252,7 @@ func raceScripts(r *rand.Rand, n int) []raceScript {
 	for i := 0; i < n; i++ {
 		kind := kinds[r.Intn(len(kinds))]
 		a, b := r.Intn(len(posA)), r.Intn(len(posB))
-		switch i % 10 {
+		switch i % 11 {
 		case 0: // a superseded search must stay silent; the new go gets its own answer
 			second := []string{"> go depth 2", fmt.Sprintf("sleep %d", 5+r.Intn(30)), "release", "wait-bestmove 8000", "quiet 1200", "sync", "alive"}
 			if r.Intn(2) == 0 { // the new search is open-ended: nothing may be reported until it is stopped
@@ -275,7 +275,8 @@ func raceScripts(r *rand.Rand, n int) []raceScript {
 			ret = append(ret, raceScript{"plain", []string{"> " + posA[a], "> go depth 1 movetime 300", "wait-bestmove 4000", "> " + posB[b], "slow 200", "> go infinite", "sleep 600", "quiet 10", "> stop", "wait-bestmove 4000", "quiet 300"}, "stale movetime timer"})
 		case 5: // movetime and clocks end the search by themselves
 			g := []string{"> go movetime 150", "> go wtime 2000 btime 2000 movestogo 10", "> go wtime 1000 btime 1000", "> go infinite movetime 100",
-				"> go wtime 0 btime 0", "> go wtime -35 btime 1000 movestogo 3", "> go movestogo 5", "> go wtime 1 btime 1 movestogo 1"}[(i/10)%8]
+				"> go wtime 0 btime 0", "> go wtime -35 btime 1000 movestogo 3", "> go movestogo 5", "> go wtime 1 btime 1 movestogo 1",
+				"> go wtime 1000 btime 1000 movestogo -1", "> go wtime 600 btime 600 movestogo 0", "> go wtime 800 btime 800 movestogo -2", "> go movestogo -1 movetime 200"}[r.Intn(12)]
 			ret = append(ret, raceScript{kind, []string{"slow 30", "> " + posA[a], g, "wait-bestmove 9000", "quiet 400", "sync"}, "time limits"})
 		case 6: // unknown and malformed lines
 			ret = append(ret, raceScript{kind, []string{"> foo bar", "> ", "> go depth", "sync", "> go depth x", "sync", "> position fen 8/8 w - - 0 1", "sync", "> position startpos moves e2e5", "sync", "> setoption", "> debug on",
@@ -291,6 +292,11 @@ func raceScripts(r *rand.Rand, n int) []raceScript {
 				first = "> go depth 2"
 			}
 			ret = append(ret, raceScript{k, []string{"> " + []string{"position startpos", posA[a], posB[b]}[r.Intn(3)], first, "wait-bestmove 20000", "quiet 200", "> go depth 1", "wait-bestmove 20000"}, "bundled engines"})
+		case 10: // bundled engines in squeezed positions (one to three legal moves, often all of them bad): still a legal move
+			k := kinds[2+r.Intn(4)]
+			if f, ok := squeezed(r, 1+r.Intn(3)); ok {
+				ret = append(ret, raceScript{k, []string{"> position fen " + f, "> go depth 2", "wait-bestmove 20000", "quiet 100"}, "bundled engines squeezed"})
+			}
 		}
 	}
 	return ret
